@@ -119,7 +119,13 @@ def theorem_at(path, lineno):
     """name of the theorem enclosing line `lineno` of a Lean file"""
     last = None
     try:
-        for i, line in enumerate(open(path), 1):
+        lines = open(path).read().split("\n")
+        # an error reported on a `set_option … in` / attribute line belongs to the declaration that follows
+        k = lineno
+        while k <= len(lines) and k < lineno + 4 and re.match(r"\s*(set_option\b.*\bin\s*$|@\[[^\]]*\]\s*$)", lines[k - 1]):
+            k += 1
+        lineno = k
+        for i, line in enumerate(lines, 1):
             if i > lineno:
                 break
             m = re.match(r"\s*(?:@\[[^\]]*\]\s*)?(?:private\s+|protected\s+)?(?:theorem|lemma|def|example|instance)\s*(\S*)", line)
@@ -354,8 +360,24 @@ class Check:
             olean = os.path.join(LEAN, ".lake/build/lib/lean", m.replace(".", "/") + ".olean")
             mnames = [n for (mm, n) in names if mm == m]
             errs_here = [f for f in res.failed if os.path.join(VERIF, f["file"]) == mfile]
+            # the olean must be newer than every TfelVerif source it (transitively) imports: after a failed
+            # build of an import (e.g. a regenerated Gen) a stale olean of the dependent module may survive
+            deps, todo2 = set(), [mfile]
+            while todo2:
+                f2 = todo2.pop()
+                if f2 in deps or not os.path.exists(f2):
+                    continue
+                deps.add(f2)
+                for im in re.finditer(r"^import\s+(TfelVerif\.\S+)", open(f2).read(), re.M):
+                    todo2.append(os.path.join(LEAN, im.group(1).replace(".", "/") + ".lean"))
             built = os.path.exists(olean) and not errs_here and \
-                os.path.getmtime(olean) >= os.path.getmtime(mfile)
+                all(os.path.getmtime(olean) >= os.path.getmtime(f2) for f2 in deps)
+            if p.returncode != 0 and not errs_here and os.path.exists(olean):
+                # lake failed somewhere: trust this module's olean only if lake did not list it (or an import) as failed
+                failed_mods = set(re.findall(r"^- (TfelVerif\.\S+)", res.log, re.M))
+                depmods = {os.path.relpath(f2, LEAN)[:-5].replace("/", ".") for f2 in deps}
+                if failed_mods & depmods:
+                    built = False
             if built:
                 auditable += [(m, n) for n in mnames]
             elif errs_here:
